@@ -254,3 +254,139 @@ Example ex_semantic :
 Proof. vm_compute. repeat split; reflexivity. Qed.
 Example ex_priority_enum_nonempty : priority_enum <> [].
 Proof. exact priority_enum_nonempty. Qed.
+
+(* ============================== C13_stageable: composition with the Expand model *)
+(** "An accepted specification can be staged": the specification model composed
+    with the expansion model [Expand.stage] (the model of Study._stage proved
+    correct for C08).  [to_expand_spec render envsub root rlimit d]
+    (Spec/SpecStage.v) is the specification the code hands to Study._stage for
+    the loaded document [d] -- parameters (key, name, values, label) and steps
+    (name, description, depends, cmd, restart, remaining run strings) -- for
+    EVERY rendering [render] of parameter values ([str(v)]) and EVERY
+    environment substitution [envsub] on the texts; [ap], [san] (the parameter
+    substitution and the path sanitiser, owned by C09 / C10) and the set
+    iteration order [pi] are arbitrary too.
+    Hypotheses, all decidable and stated on the translated specification:
+      [hygb]      hygiene H8 of C08 (parameter keys without regex
+                  metacharacters, rectangular table, instance naming injective
+                  and never equal to a step name -- K2/K2b excluded, every
+                  dependency names a step);
+      [wsrefs_ok] every "$(x.workspace)" reference of a step names a node that
+                  comes before the step in the staging order -- the test
+                  study.py itself makes ("Workspace for 'x' is being used before
+                  it would be generated": a deliberate Exception raised at
+                  staging time, class Diag, never a KeyError; observed on /repo
+                  for a missing step, the step itself and a non-ancestor).
+                  [C13_stageable_needs_refs] shows it cannot be dropped;
+                  [C13_stageable_norefs] / [C13_stageable_parentrefs] are the
+                  instances "no reference at all" (the harness's valid stream)
+                  and "references to direct dependencies only".
+    Conclusion: [stage] returns a graph (no error case of the model: Study
+    constructor, fuel of the topological sort, unknown parent / workspace in
+    the used-parameter pass, missing workspace / combination list / edge source
+    in the expansion pass), over exactly the accepted steps, and the C08 monitor
+    holds of it.  This supersedes [C13_stageable_partial] (kept above).  Not
+    covered: the file-system effects of staging and acquiring env.dependencies
+    (not in either model). *)
+From MWF Require Import Expand.PyStr Expand.Expand Expand.ExpandProofs Spec.SpecStage Spec.SpecStage4.
+
+Theorem C13_stageable :
+  forall (render : jv -> str) (envsub : str -> str) (root : str) (rlimit : nat)
+         (ap : list param -> nat -> str -> str) (san : str -> str) (pi : an_oracle)
+         (doc : jv) (ns : list str),
+  verify_and_build doc = Accept ns ->
+  perm_oracle pi ->
+  hygb (to_expand_spec render envsub root rlimit (yaml_load doc)) = true ->
+  wsrefs_ok (to_expand_spec render envsub root rlimit (yaml_load doc)) = true ->
+  exists um st,
+    stage ap san pi (to_expand_spec render envsub root rlimit (yaml_load doc)) = Expand.Ok (um, st)
+    /\ Expand.step_names (to_expand_spec render envsub root rlimit (yaml_load doc)) = ns
+    /\ C08_ok (to_expand_spec render envsub root rlimit (yaml_load doc))
+              (observe_result (stage ap san pi (to_expand_spec render envsub root rlimit (yaml_load doc)))) = true.
+Proof. exact written_stageable. Qed.
+Print Assumptions C13_stageable.
+
+(** the same on a loaded document (what yaml.load returned) *)
+Theorem C13_stageable_loaded :
+  forall (render : jv -> str) (envsub : str -> str) (root : str) (rlimit : nat)
+         (ap : list param -> nat -> str -> str) (san : str -> str) (pi : an_oracle)
+         (d : jv) (ns : list str),
+  build d = Accept ns ->
+  perm_oracle pi ->
+  hygb (to_expand_spec render envsub root rlimit d) = true ->
+  wsrefs_ok (to_expand_spec render envsub root rlimit d) = true ->
+  exists um st,
+    stage ap san pi (to_expand_spec render envsub root rlimit d) = Expand.Ok (um, st)
+    /\ Expand.step_names (to_expand_spec render envsub root rlimit d) = ns
+    /\ C08_ok (to_expand_spec render envsub root rlimit d)
+              (observe_result (stage ap san pi (to_expand_spec render envsub root rlimit d))) = true.
+Proof. exact accepted_stageable. Qed.
+Print Assumptions C13_stageable_loaded.
+
+(** accepted => the study the constructor is given is constructible (the
+    model's [Err 1] is excluded by acceptance alone) *)
+Theorem C13_constructible :
+  forall (render : jv -> str) (envsub : str -> str) (root : str) (rlimit : nat) (d : jv) (ns : list str),
+  build d = Accept ns ->
+  construct_ok [SOURCE] (sp_steps (to_expand_spec render envsub root rlimit d)) = true.
+Proof. exact accepted_constructible. Qed.
+Print Assumptions C13_constructible.
+
+(** no workspace reference at all (the domain in which the harness stages every
+    accepted document for real) *)
+Theorem C13_stageable_norefs :
+  forall (render : jv -> str) (envsub : str -> str) (root : str) (rlimit : nat)
+         (ap : list param -> nat -> str -> str) (san : str -> str) (pi : an_oracle)
+         (doc : jv) (ns : list str),
+  verify_and_build doc = Accept ns ->
+  perm_oracle pi ->
+  hygb (to_expand_spec render envsub root rlimit (yaml_load doc)) = true ->
+  no_wsrefs (to_expand_spec render envsub root rlimit (yaml_load doc)) = true ->
+  exists um st,
+    stage ap san pi (to_expand_spec render envsub root rlimit (yaml_load doc)) = Expand.Ok (um, st).
+Proof. exact written_stageable_norefs. Qed.
+Print Assumptions C13_stageable_norefs.
+
+(** workspace references to direct dependencies ("_source" when there is none) *)
+Theorem C13_stageable_parentrefs :
+  forall (render : jv -> str) (envsub : str -> str) (root : str) (rlimit : nat)
+         (ap : list param -> nat -> str -> str) (san : str -> str) (pi : an_oracle)
+         (doc : jv) (ns : list str),
+  verify_and_build doc = Accept ns ->
+  perm_oracle pi ->
+  hygb (to_expand_spec render envsub root rlimit (yaml_load doc)) = true ->
+  wsrefs_parents (to_expand_spec render envsub root rlimit (yaml_load doc)) = true ->
+  exists um st,
+    stage ap san pi (to_expand_spec render envsub root rlimit (yaml_load doc)) = Expand.Ok (um, st).
+Proof. exact written_stageable_parentrefs. Qed.
+Print Assumptions C13_stageable_parentrefs.
+
+(** the reference hypothesis is necessary: an accepted document inside H8 whose
+    step reads "$(nosuch.workspace)" is not staged (model: [Err 2]; code: the
+    deliberate Exception above) *)
+Theorem C13_stageable_needs_refs :
+  verify_and_build ex_badref_doc = Accept [s "a"]
+  /\ hygb (to_expand_spec render_simple (fun x => x) (s "/R") 0 (yaml_load ex_badref_doc)) = true
+  /\ wsrefs_ok (to_expand_spec render_simple (fun x => x) (s "/R") 0 (yaml_load ex_badref_doc)) = false
+  /\ stage_c pi_id (to_expand_spec render_simple (fun x => x) (s "/R") 0 (yaml_load ex_badref_doc)) = Expand.Err 2.
+Proof. exact stageable_needs_refs. Qed.
+Print Assumptions C13_stageable_needs_refs.
+
+(** non-vacuity of C13_stageable: [ex_stage_doc] (a step expanded over SIZE, a
+    dependent step expanded over SIZE x ITER that reads its parent's workspace, a
+    funnel step reading the funnelled workspace) is accepted, repeats no key, is
+    inside H8 with admissible references, and its staging is computed: the
+    instance names are those the real Study.stage produces for the same text *)
+Example ex_stageable :
+  verify_and_build ex_stage_doc = Accept [s "make"; s "run"; s "post"]
+  /\ nodupkeys ex_stage_doc = true
+  /\ hygb (to_expand_spec render_simple (fun x => x) (s "/R") 1 (yaml_load ex_stage_doc)) = true
+  /\ wsrefs_ok (to_expand_spec render_simple (fun x => x) (s "/R") 1 (yaml_load ex_stage_doc)) = true
+  /\ match stage_c pi_id (to_expand_spec render_simple (fun x => x) (s "/R") 1 (yaml_load ex_stage_doc)) with
+     | Expand.Ok (um, st) => g_names (st_g st)
+     | Expand.Err _ => []
+     end = [s "_source"; s "make_SIZE.10"; s "make_SIZE.20";
+            s "run_ITER.1.SIZE.10"; s "run_ITER.2.SIZE.10"; s "run_ITER.3.SIZE.20"; s "post"].
+Proof. vm_compute. repeat split; reflexivity. Qed.
+Example ex_stageable_oracle : perm_oracle pi_id /\ perm_oracle pi_rev.
+Proof. exact (conj perm_oracle_id perm_oracle_rev). Qed.
